@@ -848,3 +848,8 @@ impl ControlPoint<Vec<EffectPoint>> for EffectPoint {
         }
     }
 }
+
+// Verification hook (compiled only by `cargo kani`, which sets `--cfg kani`).
+#[cfg(kani)]
+#[path = "/verif/harness/decode.rs"]
+pub(crate) mod verif_harness;
